@@ -118,7 +118,12 @@ class C02(Spec):
         # queued behind the POST (c): the next request must not be written into the middle of the body / must be served on a new
         # connection; 25 time-outs while the socket keeps becoming writable (s)
         cases += ["QT 4194304 300 n", "QT 6291456 8000 e", "QT 8388608 8000 c", "QT 67108864 20 s"]
-        cases += self.c05.gen(rng, tier)[: (200 if tier == "quick" else 3000)]
+        # the response side: fixed-length responses (P), streamed ones (T) and streams built with every way of putting data
+        # into a ResponseStream, flushed and MOVED at any point (U; a stream handed to a producer before the first flush
+        # was missed here until round 6: the first 200 cases of C05's generator are all of kind P)
+        c5 = self.c05.gen(rng, tier)
+        nq = 200 if tier == "quick" else 3000
+        cases += [c for c in c5 if c.startswith("P ")][:nq] + [c for c in c5 if c.startswith("U ")][:nq] + [c for c in c5 if c.startswith("T ")][:nq]
         return cases
 
     def canon_impl(self, line):
